@@ -293,10 +293,18 @@ def run(tier):
                           "POSTCONDITION Report\nCHECK_DEADLOCK FALSE\n", workers=1, timeout=300, env={"LOGIC_TRACE": sfile})
         if not any(s.startswith("REJECTED [\"") for s in sr.prints):
             raise vlib.Infra("LogicTrace self-test: corrupted observation was accepted")
+    # (C) the documented meaning of every atomic constraint on properties with 0..4 values
+    import atoms
+    ast = atoms.run(V, rnd)
+    atlc = ast.pop("tlc")
     rc = V.finish()
     nontriv = sum(1 for fid in expect if expect[fid])
     vlib.write_evidence("C01", tier, {
-        "states": states + tr.distinct, "transitions": trans + tr.generated,
+        "states": states + tr.distinct + atlc.distinct, "transitions": trans + tr.generated + atlc.generated,
+        "atoms": dict(ast, rule="Atoms.tla: 21 atomic constraints x negated / not, each on the 256 nodes carrying every pair of "
+                                "value sets over 4 magnitudes (0..4 values per property): reported set enumerated by TLC, compared "
+                                "through Validate and CompileProfile+ValidateCompiled; cells where the code's negated twin is "
+                                "not the classical complement (several values under `not`) are transcribed and informational"),
         "traces_validated_against_impl": len(fmeta),
         "evaluations": compared * 2 + len(fmeta), "distinct_nontrivial": nontriv,
         "rule": "scopes enumerated exhaustively by TLC as initial states (design theorem + spelling invariants checked on "
@@ -311,9 +319,9 @@ def run(tier):
         "checker_cmd": scopes[1][1][4], "negative_control": neg,
         "known_findings_hit": sorted(V.known_hits),
     }, time.time() - t0, violations=len(V.violations),
-        assumptions=["per-value atoms are instantiated on single-valued properties and containsAll/containsSome on "
-                     "non-empty value sets (where the constraint's negated twin is its complement); uniqueValues is not "
-                     "used as an atom"])
+        assumptions=["inside formulas, per-value atoms are instantiated on single-valued properties and containsAll/"
+                     "containsSome on non-empty value sets (where the constraint's negated twin is its complement); "
+                     "multi-valued properties are covered for single atoms by Atoms.tla; uniqueValues is not used as an atom"])
     return rc
 
 
